@@ -5,7 +5,7 @@
 //! and every diagnostic produced is checked (span inside the file, on char boundaries, start <= end) and
 //! rendered with diagnostics::format_error and lsp::diagnostics::compile_error_to_diagnostic.
 //! Output: `R lex=.. parse=.. check=.. fmt=.. gen=.. diags=N | <violations separated by " ;; ">`.
-//! A hang prints `HANG` and exits with status 3 (the driver restarts after the case); a stack overflow or
+//! (`vharness run c11 robust <seconds>` overrides the limit.)  A hang prints `HANG` and exits with status 3 (the driver restarts after the case); a stack overflow or
 //! abort kills the process (the driver sees the missing line).
 //! Mode `lex` (args[0] == "lex"): token classes and spans like `vharness run c10` mode lex.
 use crate::c10::{lex_line, unhex};
@@ -194,6 +194,7 @@ fn pipeline(src: &str) -> String {
 
 pub fn run(args: &[String]) {
     let mode = args.first().map(|s| s.as_str()).unwrap_or("robust");
+    let limit: u64 = args.get(1).and_then(|s| s.parse().ok()).unwrap_or(TIMEOUT_SECS);
     let stdin = io::stdin();
     let stdout = io::stdout();
     for line in stdin.lock().lines() {
@@ -223,7 +224,7 @@ pub fn run(args: &[String]) {
                 let _ = tx.send(r);
             })
             .expect("spawn");
-        match rx.recv_timeout(Duration::from_secs(TIMEOUT_SECS)) {
+        match rx.recv_timeout(Duration::from_secs(limit)) {
             Ok(r) => {
                 let _ = handle.join();
                 let mut o = stdout.lock();
